@@ -1,0 +1,27 @@
+//go:build verif
+
+// Contracts for this source-chain router (C20: each cross-chain message is executed at most once), read by /verif/gocv.
+package msc
+
+//@ func (*Handler).MakeDepositProposal
+//@   property C20
+//@   mode abstract
+//@   modifies Store
+//@   requires service != nil
+//@   ghost var pre Store
+//@   ghost var post Store
+//@   ghost var src uint64 = 0
+//@   ghost var id Bytes
+//@   ghost var chk *scom.MakeTxParam = nil
+//@   set before "if err := scom.CheckDoneTx(service, value.CrossChainID, params.SourceChainID); err != nil" : pre := Store
+//@   set before "if err := scom.CheckDoneTx(service, value.CrossChainID, params.SourceChainID); err != nil" : src := params.SourceChainID
+//@   set before "if err := scom.CheckDoneTx(service, value.CrossChainID, params.SourceChainID); err != nil" : id := bytes(value.CrossChainID)
+//@   set before "if err := scom.CheckDoneTx(service, value.CrossChainID, params.SourceChainID); err != nil" : chk := value
+//@   set after "if err := scom.PutDoneTx(service, value.CrossChainID, params.SourceChainID); err != nil" : post := Store
+//@   -- the message handed back is the one whose id was checked
+//@   ensures[c20-same] err == nil && r0 != nil && true ==> r0 == chk
+//@   -- accepted only if no done-marker existed for (source chain, id) when it was checked
+//@   ensures[c20-once] err == nil && r0 != nil && true ==> pre[doneKeyB(id, src)] == None
+//@   -- accepting marks exactly that (source chain, id) as done; nothing else in storage changes between check and mark
+//@   ensures[c20-marked] err == nil && r0 != nil && true ==> post[doneKeyB(id, src)] != None
+//@   ensures[c20-onlymarker] err == nil && r0 != nil && true ==> post == upd(pre, doneKeyB(id, src), post[doneKeyB(id, src)])
